@@ -160,6 +160,22 @@ func TestRegGarbageIdentityInKeyLists(t *testing.T) {
 	}
 }
 
+// Pubsub: an accepted Subscribe for space A, then an Unsubscribe naming a space B the engine holds
+// no interest in (never subscribed / already dropped), any topic list: a no-op, never a crash
+// (seeded change C11-a5 made it dereference a nil *spaceInterest in the pool's read loop).
+func TestRegPubsubUnsubscribeUnknownSpace(t *testing.T) {
+	var ins []In
+	for a := 0; a < 8; a++ {
+		for b := 0; b < 5; b++ {
+			ins = append(ins, In{Kind: "unsub-other-space", A: a, B: b, C: 0}, In{Kind: "unsub-other-space", A: a, B: b, C: 1})
+		}
+		ins = append(ins, In{Kind: "unsub-all", A: a, C: a}, In{Kind: "interleave", A: a, B: a + 3})
+	}
+	// verbatim: stream 0: Subscribe{spaceA, [chat/>]} then Unsubscribe{some-other-space, []}
+	ins = append(ins, raw(0, psSeq(psFrame(0, psSub("spaceA", "chat/>")), psFrame(0, psUnsub("some-other-space")))))
+	reg(t, Case{Target: "pubsub", Ins: ins})
+}
+
 // Harness self-check: fixtures are a function of the code (two builds give the same valid
 // messages), and every valid message is accepted by the entry point it was made for.
 func TestRegFixturesReproducibleAndValid(t *testing.T) {
